@@ -1,14 +1,23 @@
 import KyupyVerif.Model.Transform
+import KyupyVerif.Model.Substitute
 /-! Driver extension for C10: the transformation models on one netlist dump.
 
 `xform <op> <names> <dump...>`
 * op    = `copy` | `pickle` | `elim` (current tree, forks in index order) | `elimin<s><k>:<name>,<name>,...` (explicit
           dictionary order; s = 1: node order restored afterwards (patch 03), k = 1: undriven forks skipped (patch 06);
-          `elimin00:` = the current tree) | `wf` | `snames`
+          `elimin00:` = the current tree) | `elimmap<k>:<name>,...` (index maps of the loop, k as before) | `wf` |
+          `wfsem` (`wf` and every fork has at most one input: hypotheses of `elim_sem`) | `snames`
 * names = node names, percent-encoded, `|`-separated (`%` alone = empty name; `~` = no node)
 * dump  = the canonical dump of `harness/circ.py: dump_net` (`nodes ; lines ; io`, blanks allowed)
 Answer: `<nodes> ; <lines> ; <io> ; <names>` in the same format, `raise` when the model's guard fails,
-`1`/`0` for `wf`, the `,`-separated percent-encoded `s_nodes` names for `snames`. -/
+`1`/`0` for `wf`, the `,`-separated percent-encoded `s_nodes` names for `snames`; for `elimmap`: `<node map> ; <line map>`
+(`,`-separated: for every node / line index of the result the index the same object had before).
+
+`subst <cell index> <host names> <impl names> <host dump...> @@ <impl dump...>` — `Circuit.substitute` (Model/Substitute.lean);
+answer as for `xform`, followed by ` ; regular` / ` ; not-regular` (the model's predicate `regularB`).
+
+`resolve <host names> <host dump...> @@ <kind> <impl names> <impl dump...> @@ ...` — `Circuit.resolve_tlib_cells` with the
+library given as (kind, implementation) blocks; answer as for `xform`. -/
 namespace KV.Drv.Transform
 open KV KV.Transform
 
@@ -60,7 +69,46 @@ def showOpt : Option NNet → String
   | some nn => showNN nn
   | none => "raise"
 
+def splitAt2 (l : List String) : List String × List String :=
+  (l.takeWhile (· != "@@"), (l.dropWhile (· != "@@")).drop 1)
+
+def handleSubst (args : List String) : String :=
+  match args with
+  | c :: hn :: mn :: rest =>
+    let (hd, md) := splitAt2 rest
+    let h : NNet := { net := parseNet (" ".intercalate hd), names := parseNames hn }
+    let m : NNet := { net := parseNet (" ".intercalate md), names := parseNames mn }
+    -- trailing flag: whether the case is the regular one of theorems `substitute_regular` / `substitute_wiring`
+    showOpt (substitute h c.toNat! m) ++ (if regularB h c.toNat! m then " ; regular" else " ; not-regular")
+  | _ => "bad-args"
+
+/-- `resolve <host names> <host dump...> @@ <kind> <impl names> <impl dump...> @@ <kind> ...` -/
+def splitBlocks : List String → List (List String)
+  | [] => [[]]
+  | t :: rest =>
+    match splitBlocks rest with
+    | [] => [[t]]
+    | b :: bs => if t == "@@" then [] :: b :: bs else (t :: b) :: bs
+
+def handleResolve (args : List String) : String :=
+  match splitBlocks args with
+  | (hn :: hd) :: libBlocks =>
+    let h : NNet := { net := parseNet (" ".intercalate hd), names := parseNames hn }
+    let lib : Lib := libBlocks.filterMap fun b => match b with
+      | kind :: mn :: md => some (unpct kind, { net := parseNet (" ".intercalate md), names := parseNames mn })
+      | _ => none
+    showOpt (resolveCells lib h)
+  | _ => "bad-args"
+
+def showMaps : Option (NNet × Ren) → String
+  | some (nn, r) =>
+    ",".intercalate ((List.range nn.net.nodes.size).map fun j => toString (r.node j)) ++ " ; " ++
+    ",".intercalate ((List.range nn.net.lines.size).map fun l => toString (r.line l))
+  | none => "raise"
+
 def handle (cmd : String) (args : List String) : Option String :=
+  if cmd == "subst" then some (handleSubst args) else
+  if cmd == "resolve" then some (handleResolve args) else
   if cmd != "xform" then none else
   match args with
   | op :: names :: rest =>
@@ -75,7 +123,13 @@ def handle (cmd : String) (args : List String) : Option String :=
       let o := (op.drop 9).toString
       let order := if o == "" then [] else (o.splitOn ",").map unpct
       some (showOpt (if stable then elimForksStableIn skip order nn else elimForksIn skip order nn))
+    else if op.startsWith "elimmap" && (op.drop 8).toString.startsWith ":" then
+      let skip := (op.drop 7).toString.startsWith "1"
+      let o := (op.drop 9).toString
+      let order := if o == "" then [] else (o.splitOn ",").map unpct
+      some (showMaps (elimForksInM skip order nn))
     else if op == "wf" then some (if nn.wf then "1" else "0")
+    else if op == "wfsem" then some (if nn.wf && nn.forkIns1 then "1" else "0")
     else if op == "snames" then some (",".intercalate (nn.sNames.map pct))
     else some "bad-args"
   | _ => some "bad-args"
